@@ -111,6 +111,20 @@ func registerRT(e *Engine) {
 		ex.recordDraw(Draw{Name: name, Kind: "bool", Term: t})
 		return t, nil
 	})
+	e.reg(rtPkg+".Real", func(ex *Exec, fn *ssa.Function, args []Value) (Value, *PanicV) {
+		name := ex.argString(args[0])
+		t := ex.ctx.Fresh("r_"+name, RealSort)
+		ex.recordDraw(Draw{Name: name, Kind: "real", Term: t})
+		return t, nil
+	})
+	e.reg(rtPkg+".ImpureCalls", func(ex *Exec, fn *ssa.Function, args []Value) (Value, *PanicV) {
+		l, ok := ex.st["purity"].(*[]string)
+		if !ok {
+			l = &[]string{}
+			ex.st["purity"] = l
+		}
+		return c64(ex.ctx, uint64(len(*l))), nil
+	})
 	e.reg(rtPkg+".IntRange", func(ex *Exec, fn *ssa.Function, args []Value) (Value, *PanicV) {
 		name := ex.argString(args[0])
 		lo, hi := argTerm(ex, args[1]), argTerm(ex, args[2])
